@@ -118,6 +118,8 @@ func c08History(t *vk.T, proto string, n, th, rep int, env vk.Env) {
 		op := ops[r.Intn(len(ops))]
 		if step == 0 || (step == maxLen-1 && refreshes == 0) {
 			op = "refresh"
+		} else if step == 1 && rep%2 == 0 && proto != "cmp" {
+			op = "aborted-refresh" // every second history loses a refresh right after its first one
 		}
 		hist += op[:3] + ">"
 		tag := fmt.Sprintf("%s n=%d t=%d ids=%q history=%s", proto, n, th, ids, hist)
@@ -159,7 +161,7 @@ func c08History(t *vk.T, proto string, n, th, rep int, env vk.Env) {
 			// a refresh in which the messages of round k and later are lost: nobody completes, and the material the
 			// parties hold (the very same objects) must be exactly as usable as before
 			final := map[string]int{"frost": 3, "frost-taproot": 3, "doerner": 3, "cmp": 5}[proto]
-			from := 2 + r.Intn(final-1)
+			from := 2 + (rep/2+step+r.Intn(2)*(final-1))%(final-1)
 			before := secretsOf(cur)
 			o := opt()
 			o.Prepare = func(nn *sim.Net) {
